@@ -287,6 +287,30 @@ theorem retype_non_literal_witness :
     (check (cfgWith2 .repaired) exprFfPlusI).errClass = some .badArgument := by
   decide +kernel
 
+/-- `Any * 1` in `struct { Any interface{} }` -/
+def envTy3 : Ty := .named "main.E3" [] (.struct [fld "Any" interfaceType, fld "I" tInt])
+
+def cfgWith3 (dt : TDefects) : CheckCfg :=
+  { types := createTypesTable .asIs id { ty := some envTy3 }, strict := true, dt := dt }
+
+def exprAnyTimes1 : Node := .binary {} "*" (ident "Any") (.int {} 1)
+
+/-- `c03:dynamic-type-differs:arith-with-interface-operand` (known; pinned by /repo's tests): `Any * 1` with
+`Any interface{}` is reported as `int` — `combined` gives `interface{}` weight 0 — although the value may be
+a float64; under the documented rule set the result type is `interface{}`. -/
+theorem combined_iface_witness :
+    (check (cfgWith3 .asIs) exprAnyTimes1).okType = some (some tInt) ∧
+    (check (cfgWith3 .repaired) exprAnyTimes1).okType = some ifaceTy ∧
+    ¬ Static (cfgWith3 .asIs) exprAnyTimes1 := by
+  decide +kernel
+
+/-- `c ? 1 : Any` (fixed by 390c455): at the snapshot the type of a conditional whose first branch is
+assignable to the second was the first branch's type. -/
+theorem cond_type_witness :
+    (check (cfgWith3 .asWas) (.cond {} (.bool {} true) (.int {} 1) (ident "Any"))).okType = some (some tInt) ∧
+    (check (cfgWith3 .asIs) (.cond {} (.bool {} true) (.int {} 1) (ident "Any"))).okType = some ifaceTy := by
+  decide +kernel
+
 /-- the full rejection statement for the code's own flags … -/
 def check_rejects_goal (dt : TDefects) : Prop :=
   ∀ (cfg : CheckCfg) (n : Node), cfg.dt = dt → ¬ WellTyped cfg n → ∀ n' τ, check cfg n ≠ .ok n' τ
